@@ -36,7 +36,7 @@ MANIFEST = dict(
     level_note=("Trusted: Lean kernel; axioms propext/Classical.choice/Quot.sound only; the correspondence harness; "
                 "the socketpair between client and helper (reliable ordered bytes, readline(n) semantics of a buffered "
                 "binary stream); CPython int()/strip()/split() as modelled for ASCII text. Host names longer than the "
-                "helper's 128-byte read hold for the repaired helper (proposed_fixes/C13-helper-joins-line-pieces.diff)."),
+                "helper's 128-byte read hold for the repaired helper (fix commit 80ba208)."),
     technique="Lean 4 proof (render/parse round trip by induction over the entry lists) + differential correspondence",
 )
 DRIVER_TARGETS = ['SshuttleModel.Code.FwDialogue']
